@@ -10,7 +10,7 @@ import ast
 
 from ..engine import rule
 from ..model import Undecided
-from ..cfg import dotted, call_name, is_call, simple_name, unparse, const_value, contains, enclosing, implied
+from ..cfg import same, dotted, call_name, is_call, simple_name, unparse, const_value, contains, enclosing, implied
 from ..flow import Defs, depends, affine, try_const
 from ..util import keyword, returns_of, calls_in, inside, order_key
 
@@ -55,7 +55,7 @@ def c07a(ctx):
     g = init.cfg
     opens = g.find(lambda x: is_call(x, 'open'))
     locks = g.find(lambda x: is_call(x, '_lock_file'))
-    pubs = g.find_stmts(lambda s: isinstance(s, ast.Assign) and any(unparse(t) == 'self._fp' for t in s.targets))
+    pubs = g.find_stmts(lambda s: isinstance(s, ast.Assign) and any(same(t, 'self._fp') for t in s.targets))
     if not (opens and locks and pubs):
         ctx.bad('LockFile.__init__:shape', 'open / _lock_file / self._fp assignment not found', init)
         return
@@ -77,7 +77,7 @@ def c07a(ctx):
 
 def _removes_lock_file(ctx):
     un = ctx.fn(LOCK + ':FileLock.unlock')
-    rem = [x for x in un.walk() if is_call(x, 'os.remove', 'os.unlink') and x.args and unparse(x.args[0]) == 'self.lock_file']
+    rem = [x for x in un.walk() if is_call(x, 'os.remove', 'os.unlink') and x.args and same(x.args[0], 'self.lock_file')]
     cl = ctx.fn(LOCK + ':cleanup_lockdir')
     rem2 = [x for x in cl.walk() if is_call(x, 'os.remove', 'os.unlink')]
     return un, rem, cl, rem2
@@ -166,12 +166,12 @@ def c07c(ctx):
     g = un.cfg
     # every path through the `if self._locked` body releases: remove or close
     rel = [n for n, x in g.find(lambda x: is_call(x, 'os.remove', 'os.unlink', 'self._lock.close'))]
-    guard_true = g.guard_edges(lambda at: at.op is None and unparse(at.expr) == 'self._locked', True)
+    guard_true = g.guard_edges(lambda at: at.op is None and same(at.expr, 'self._locked'), True)
     ok = bool(rel) and bool(guard_true)
     if ok:
         start = guard_true[0][1]
         ok = not g.reaches_avoiding(guard_true[0][0], g.EXIT, avoid=set(rel) | {d for s, d in g.guard_edges(
-            lambda at: at.op is None and unparse(at.expr) == 'self._locked', False)}, no_exc=True) or \
+            lambda at: at.op is None and same(at.expr, 'self._locked'), False)}, no_exc=True) or \
             not _path_without(g, start, rel)
     ctx.check(ok, 'FileLock.unlock:releases', 'every path of unlock() for a held lock removes the lock file or closes the handle', un,
               fail='unlock() has a path for a held lock that neither removes the file nor closes the handle: the lock is never released')
@@ -288,7 +288,7 @@ def c07d(ctx):
                        'interval before the deadline is reported as timed out')
     defs = Defs(fn.node)
     stops = [v for v, sel in defs.of('stop_time')]
-    ok = bool(stops) and all(contains(v, lambda x: unparse(x) == 'self.timeout') and isinstance(v, ast.BinOp) and isinstance(v.op, ast.Add) for v in stops)
+    ok = bool(stops) and all(contains(v, lambda x: same(x, 'self.timeout')) and isinstance(v, ast.BinOp) and isinstance(v.op, ast.Add) for v in stops)
     ctx.check(ok, 'FileLock.lock:deadline', 'stop_time = now + self.timeout', fn)
     sets = [s for s in fn.walk() if isinstance(s, ast.Assign) and unparse(s.targets[0]) == 'self._locked' and const_value(s.value) is True]
     ok = bool(sets)
@@ -298,7 +298,7 @@ def c07d(ctx):
     ctx.check(ok, 'FileLock.lock:locked-only-on-success', '_locked = True only in the `else` of the try (the attempt succeeded)', fn,
               fail='_locked is set although the attempt may have failed')
     # retry sleeps then continues (a released lock can be taken again)
-    ok = any(isinstance(s, ast.While) and contains(s.test, lambda x: unparse(x) == 'self._locked') for s in fn.walk())
+    ok = any(isinstance(s, ast.While) and contains(s.test, lambda x: same(x, 'self._locked')) for s in fn.walk())
     ctx.check(ok, 'FileLock.lock:retry-loop', 'attempts are repeated while not self._locked', fn)
 
 
@@ -313,7 +313,7 @@ def c07e(ctx):
     iv = None
     for x in lf:
         a0 = x.args[0] if x.args else None
-        if isinstance(a0, ast.BinOp) and isinstance(a0.op, ast.Add) and unparse(a0.left) == 'self.lock_file' and is_call(a0.right, 'str') and \
+        if isinstance(a0, ast.BinOp) and isinstance(a0.op, ast.Add) and same(a0.left, 'self.lock_file') and is_call(a0.right, 'str') and \
                 isinstance(a0.right.args[0], ast.Name):
             iv = a0.right.args[0].id
     ok = bool(lf) and iv is not None and all(unparse(x.args[0]).replace(' ', '') == 'self.lock_file+str(%s)' % iv for x in lf)
@@ -331,11 +331,11 @@ def c07e(ctx):
         if simple_name(init[0]) == 'randint':
             ok = const_value(a[0]) == 0 and unparse(a[1]).replace(' ', '') in ('self.n-1',)
         else:
-            ok = unparse(a[-1]) == 'self.n'
+            ok = same(a[-1], 'self.n')
     ctx.check(ok, 'SemLock._try_lock:start-slot', 'the first slot is drawn from 0 .. n-1', fn)
     oku = bool(upd)
     for v in upd:
-        form = isinstance(v, ast.BinOp) and isinstance(v.op, ast.Mod) and unparse(v.right) == 'self.n'
+        form = isinstance(v, ast.BinOp) and isinstance(v.op, ast.Mod) and same(v.right, 'self.n')
         step = None
         if form:
             a = affine(v.left)
@@ -351,8 +351,8 @@ def c07e(ctx):
     okr = bool(raises)
     for n in raises:
         # accepted guards:  not (tries < self.n)   [tries >= n]   or   self.n < tries  [tries > n]
-        a = g.guarded(n, lambda at: at.op == '<' and unparse(at.left) == tv and unparse(at.right) == 'self.n', False)
-        b = g.guarded(n, lambda at: at.op == '<' and unparse(at.left) == 'self.n' and unparse(at.right) == tv, True)
+        a = g.guarded(n, lambda at: at.op == '<' and unparse(at.left) == tv and same(at.right, 'self.n'), False)
+        b = g.guarded(n, lambda at: at.op == '<' and same(at.left, 'self.n') and unparse(at.right) == tv, True)
         c = g.guarded(n, lambda at: at.op == '==' and {unparse(at.left), unparse(at.right)} == {tv, 'self.n'}, True)
         okr = okr and (a or b or c)
         h = enclosing(g.stmt[n], ast.ExceptHandler)
@@ -363,7 +363,7 @@ def c07e(ctx):
     ok = len(incs) == 1 and bool(loop) and inside(incs[0], loop[0]) and [v for v, sel in defs.of(tv) if sel is None and const_value(v) == 0]
     ctx.check(bool(ok), 'SemLock._try_lock:counts-tries', 'tries starts at 0 and is incremented once per attempt', fn)
     init_ = ctx.fn(LOCK + ':SemLock.__init__')
-    ok = any(isinstance(s, ast.Assign) and unparse(s.targets[0]) == 'self.n' and unparse(s.value) == 'n' for s in init_.walk())
+    ok = any(isinstance(s, ast.Assign) and unparse(s.targets[0]) == 'self.n' and same(s.value, 'n') for s in init_.walk())
     ctx.check(ok, 'SemLock.__init__:n', 'self.n is the configured number of slots', init_)
 
 
@@ -394,7 +394,7 @@ def c07f(ctx):
         ctx.check(ok2, 'cleanup_lockdir:only-suffix', 'only files ending with the lock suffix are unlinked', cl, x)
     ex = [v for v, sel in defs.of('expire_time')]
     ok = bool(ex) and all(isinstance(v, ast.BinOp) and isinstance(v.op, ast.Sub) and is_call(v.left, 'time.time') and
-                          unparse(v.right) == 'max_lock_time' for v in ex)
+                          same(v.right, 'max_lock_time') for v in ex)
     ctx.check(ok, 'cleanup_lockdir:expire-time', 'expire_time = now - max_lock_time', cl)
 
 
@@ -421,12 +421,12 @@ def c07g(ctx):
     ok = True
     for p in g.preds()[g.EXIT]:
         lab = g.label.get((p, g.EXIT))
-        held = lab is not None and not isinstance(lab[0], str) and any(at.op is None and unparse(at.expr) == 'self._locked' and pol for at, pol in implied(lab[0], lab[1]))
+        held = lab is not None and not isinstance(lab[0], str) and any(at.op is None and same(at.expr, 'self._locked') and pol for at, pol in implied(lab[0], lab[1]))
         ok = ok and held
     ctx.check(ok and bool(g.preds()[g.EXIT]), 'FileLock.lock:exit-only-when-locked', 'lock() returns only over the loop exit `self._locked` (otherwise it raises LockTimeout)', lk,
               fail='lock() can return while self._locked is false: the `with` body runs without the lock')
     tr = [x for x in lk.walk() if is_call(x, 'self._try_lock')]
-    ok = bool(tr) and all(g.guarded(g.node_for(x), lambda at: at.op is None and unparse(at.expr) == 'self._locked', False) for x in tr)
+    ok = bool(tr) and all(g.guarded(g.node_for(x), lambda at: at.op is None and same(at.expr, 'self._locked'), False) for x in tr)
     ctx.check(ok, 'FileLock.lock:tries-while-unlocked', 'lock attempts are made while the lock is not held', lk)
     cl = ctx.fn(LF + ':LockFile.close')
     g = cl.cfg
@@ -451,7 +451,7 @@ def c07g(ctx):
     ctx.check(ok, 'TileLocker.lock:dummy-only-if-disabled', 'a DummyLock is handed out only if `locking_disabled` was set explicitly (default False)', tl,
               fail='TileLocker.lock() hands out a DummyLock by default: tiles are created without any lock')
     fl = [x for x in tl.walk() if is_call(x, 'FileLock')]
-    ok = bool(fl) and all(unparse(x.args[0]) == 'lock_filename' and unparse(keyword(x, 'timeout')) == 'self.lock_timeout' for x in fl)
+    ok = bool(fl) and all(same(x.args[0], 'lock_filename') and unparse(keyword(x, 'timeout')) == 'self.lock_timeout' for x in fl)
     ctx.check(ok, 'TileLocker.lock:file-lock', 'otherwise a FileLock on the tile\'s lock file with the configured timeout', tl)
 
 
